@@ -944,6 +944,8 @@ class Compiler:
 
     def field_immutable(self, f: str) -> bool:
         owners = [i for i in self.m.classes.values() if f in i.fields]
+        if f == "backend" and not owners:
+            return True      # ExecModel.backend: a constant of the scenario (no translated code stores to it)
         return bool(owners) and all(f in i.immutable for i in owners)
 
     def cond(self, ctx, node, cur):
@@ -1000,6 +1002,9 @@ class Compiler:
         cur, v = self.ev(ctx, node, cur)
         if isinstance(v, tuple) and v[0] == "bool":
             return cur, v[1]
+        if isinstance(v, tuple) and v[0] == "v" and v[1] in getattr(self, "bool_temps", ()):
+            # the result of Event.is_set()/wait(): True or False - no generic truth test (which would read every container)
+            return cur, ("eq", v, C(TRUE))
         return cur, ("truthy", self.scalar(v))
 
     def ev(self, ctx, node, cur):
@@ -1168,6 +1173,16 @@ class Compiler:
         if not any(f in i.fields for i in self.m.classes.values()):
             if (f,) and f in self.extra_stubs:
                 return cur, self.extra_stubs[f]
+            # a class-level constant (e.g. a size threshold) read through the instance
+            vals = []
+            for c in self.ns.values():
+                if isinstance(c, type):
+                    for k in c.__mro__:
+                        if f in vars(k) and isinstance(vars(k)[f], (int, str, bool, type(None))):
+                            vals.append(vars(k)[f])
+                            break
+            if vals and all(v == vals[0] and type(v) is type(vals[0]) for v in vals):
+                return cur, C(self.U.const(vals[0]))
             self.err(node, f"unknown field {f!r} (no modelled class assigns it)")
         e = ("fld", obj, f)
         if self.field_immutable(f) or getattr(self, "pure_loads", False):
@@ -1467,6 +1482,9 @@ def p_wait(comp, ctx, node, cur):
         cur, timeout = comp.ev(ctx, tnode, cur)
     res = comp.fresh(ctx.thread, "w")
     n = comp.m.new_node()
+    if not hasattr(comp, "bool_temps"):
+        comp.bool_temps = set()
+    comp.bool_temps.add(res)
     comp.emit(ctx, cur, n, guard=("eq", ("ev.flag", ev), C(1)), updates=[(V(res), C(TRUE))], visible=True, info="Event.wait -> True", node=node, sync="wait")
     if not (timeout == C(NONE)):
         clock = comp.m.var("G.clock", INT0)
@@ -1499,6 +1517,9 @@ def p_clear(comp, ctx, node, cur):
 def p_is_set(comp, ctx, node, cur):
     cur, ev = _recv(comp, ctx, node, cur)
     t = comp.fresh(ctx.thread, "is")
+    if not hasattr(comp, "bool_temps"):
+        comp.bool_temps = set()
+    comp.bool_temps.add(t)
     n = comp.m.new_node()
     comp.emit(ctx, cur, n, updates=[(V(t), ("ite", ("eq", ("ev.flag", ev), C(1)), C(TRUE), C(FALSE)))], visible=True, info="Event.is_set", node=node, sync="is_set")
     return n, V(t)
